@@ -8,6 +8,7 @@
 //   "rank"  : values are relabelled by their rank among all values of the execution (order-only properties)
 #include "rec_common.hpp"
 #include "access.hpp"
+#include "static_common.hpp"
 
 #include <cmath>
 #include <memory>
@@ -36,28 +37,6 @@ static Out &shard_file(long long x) {
     return *g_files[size_t(x) % g_files.size()];
 }
 
-template<typename K> using Wide = std::conditional_t<std::is_floating_point_v<K>, long double, __int128>;
-
-// ---- normalisation ---------------------------------------------------------------------------------------------
-template<typename K>
-struct Norm {
-    bool offset = false;
-    Wide<K> base = 0;
-    std::vector<Wide<K>> universe;   // sorted distinct values (rank mode)
-    static constexpr long long FAR_ABOVE = 20000, FAR_SENT = 30000, LIMIT = 16000;
-    long long operator()(Wide<K> v) const {
-        if (offset) {
-            Wide<K> d = v - base;
-            if (d < -1) return -1;
-            if (d > LIMIT) return v == Wide<K>(sentinel()) ? FAR_SENT : FAR_ABOVE;
-            return (long long) d;
-        }
-        auto it = std::lower_bound(universe.begin(), universe.end(), v);
-        return (long long) (it - universe.begin());
-    }
-    static K sentinel() { return std::numeric_limits<K>::has_infinity ? std::numeric_limits<K>::infinity() : std::numeric_limits<K>::max(); }
-};
-
 struct FedPoint { long double x; size_t y; bool acc; };
 struct SegCallRec { size_t n, start, end, eps; std::vector<FedPoint> pts; };
 
@@ -78,132 +57,6 @@ struct PointCollector {
     }
     void uninstall() { pgm::verif::SegHooks<K>::on_point = nullptr; }
 };
-
-// recover a fraction num/den (den <= maxden) equal to v, if there is one (continued fractions)
-static bool to_fraction(long double v, long long maxden, long long &num, long long &den) {
-    if (!(v >= 0) || v > 1e9L) return false;
-    long double x = v;
-    long long p0 = 0, q0 = 1, p1 = 1, q1 = 0;
-    for (int i = 0; i < 64; ++i) {
-        long double a = std::floor(x);
-        long long ai = (long long) a;
-        long long p2 = ai * p1 + p0, q2 = ai * q1 + q0;
-        if (q2 > maxden) break;
-        p0 = p1; q0 = q1; p1 = p2; q1 = q2;
-        long double frac = x - a;
-        if (frac < 1e-18L) break;
-        x = 1 / frac;
-    }
-    if (q1 == 0) return false;
-    num = p1; den = q1;
-    return true;
-}
-
-struct Gen {
-    std::string kind;
-    std::vector<std::string> tags;
-};
-
-// ---- data generators (values as offsets from a base, later shifted to the key type) ---------------------------------
-static std::vector<long long> gen_offsets(const std::string &kind, size_t n, size_t eps, Rng &rng, size_t chunks_hint = 0) {
-    std::vector<long long> v;
-    long long cur = 0;
-    auto run_len = [&] {   // lengths around the search-range width 2*eps+2 and tiny ones
-        switch (rng.below(6)) { case 0: return (size_t) 1; case 1: return (size_t) 2; case 2: return 2 * eps + 1 + rng.below(3);
-                                case 3: return eps + rng.below(eps + 2); case 4: return 1 + rng.below(4); default: return 3 * eps + 3 + rng.below(5); }
-    };
-    if (kind == "runs") {                 // runs of duplicates separated by gaps of 1, 2 or many
-        while (v.size() < n) {
-            size_t r = run_len();
-            for (size_t i = 0; i < r && v.size() < n; ++i) v.push_back(cur);
-            cur += rng.chance(1, 3) ? 1 : rng.chance(1, 2) ? 2 : 2 + (long long) rng.below(9);
-        }
-    } else if (kind == "sawtooth") {      // points alternately eps above / below a line: tight on the band
-        long long stepx = 1 + (long long) rng.below(4);
-        for (size_t i = 0; i < n; ++i) {
-            long long jitter = (i % 2 ? 1 : -1) * (long long) rng.below(std::min<size_t>(eps, 3) + 1);
-            v.push_back(std::max<long long>(0, (long long) i * stepx + jitter + (long long) eps));
-        }
-        std::sort(v.begin(), v.end());
-    } else if (kind == "collinear") {     // exactly collinear stretches with different slopes, joined by jumps
-        while (v.size() < n) {
-            long long st = 1 + (long long) rng.below(5);
-            size_t len = 2 + rng.below(3 * eps + 6);
-            for (size_t i = 0; i < len && v.size() < n; ++i) { v.push_back(cur); cur += st; }
-            cur += (long long) rng.below(12);
-        }
-    } else if (kind == "steps") {         // dense stretch, long run, sparse stretch: steep and flat segments side by side
-        while (v.size() < n) {
-            int m = (int) rng.below(3);
-            size_t len = 1 + rng.below(2 * eps + 6);
-            for (size_t i = 0; i < len && v.size() < n; ++i) {
-                v.push_back(cur);
-                cur += m == 0 ? 1 : m == 1 ? 0 : 3 + (long long) rng.below(20);
-            }
-            cur += 1;
-        }
-    } else if (kind == "seams") {         // runs of duplicates that end at, start at, or straddle every multiple of n/c
-        size_t c = chunks_hint > 1 ? chunks_hint : 2 + rng.below(19);
-        size_t chunk = std::max<size_t>(1, n / c);
-        std::vector<char> dup(n, 0);       // dup[i]: element i equals element i-1
-        for (size_t b = chunk; b < n; b += chunk) {
-            size_t before = rng.below(2 * eps + 6), after = rng.chance(1, 2) ? 0 : rng.below(2 * eps + 6);
-            for (size_t i = (b > before ? b - before : 1); i < std::min(n, b + after); ++i) if (i) dup[i] = 1;
-        }
-        for (size_t i = 0; i < n; ++i) {
-            if (i && !dup[i]) cur += 1 + (long long) rng.below(rng.chance(1, 4) ? 40 : 3);
-            v.push_back(cur);
-        }
-    } else {                               // "random": uniform gaps 0..3
-        for (size_t i = 0; i < n; ++i) { v.push_back(cur); cur += (long long) rng.below(4); }
-    }
-    return v;
-}
-
-// place the offsets in the key type: 0 around zero, 1 at lowest(), 2 ending at max-1, 3 wide spread (rank mode)
-template<typename K>
-std::vector<K> place(const std::vector<long long> &off, int where, Rng &rng, bool &wide) {
-    using L = std::numeric_limits<K>;
-    std::vector<K> d;
-    wide = false;
-    long long span = off.empty() ? 0 : off.back();
-    if constexpr (std::is_floating_point_v<K>) {
-        // dyadic grid m/4 (exactly representable); where==3: multiplied by a big power of two
-        // zero and denormal keys are outside the properties' domain (a duplicate of 0 puts the next representable value,
-        // a denormal, into the builder: the density n / gap is then not representable in the slope type)
-        K scale = where == 3 ? K(1 << 20) : K(0.25);
-        K basev = where == 1 ? K(-100000) : where == 2 ? K(5000) : where == 3 ? K(1 << 21) : K(16);
-        for (auto o : off) d.push_back(basev + K(o) * scale);
-        wide = where == 3;
-        return d;
-    } else {
-        Wide<K> lo = (Wide<K>) L::lowest(), hi = (Wide<K>) L::max() - 1;
-        Wide<K> room = hi - lo;
-        if ((Wide<K>) span > room) {      // does not fit: compress (keeps order, merges values)
-            for (auto o : off) d.push_back(K(lo + (Wide<K>) ((long double) o / (long double) span * (long double) room)));
-            std::sort(d.begin(), d.end());
-            return d;
-        }
-        Wide<K> basev;
-        if (where == 1) basev = lo;
-        else if (where == 2) basev = hi - span;
-        else if (where == 3 && sizeof(K) >= 4) {
-            // wide spread: multiply offsets so that the data covers a large part of the type
-            Wide<K> mul = room / (Wide<K>) (span + 1) / 2;
-            if (mul < 1) mul = 1;
-            mul = (Wide<K>) 1 + (Wide<K>) (rng.next() % (uint64_t) std::min<Wide<K>>(mul, (Wide<K>) 1 << 40));
-            for (auto o : off) d.push_back(K(lo + room / 4 + (Wide<K>) o * mul));
-            wide = true;
-            return d;
-        } else {
-            basev = std::is_signed_v<K> ? (Wide<K>) -4 : (Wide<K>) 0;
-            if (basev + span > hi) basev = hi - span;
-            if (sizeof(K) >= 4 && rng.chance(1, 2)) basev += 1000;
-        }
-        for (auto o : off) d.push_back(K(basev + o));
-        return d;
-    }
-}
 
 struct ExecPlan {
     std::string kind;
